@@ -455,6 +455,18 @@ class ProgGen:
     def import_stmt(self):
         r = self.r
         c = r.random()
+        if c < 0.18:
+            # submodules / from-imports of packages, possibly loaded for the first time by this very program
+            return r.choice([
+                ['from json import tool as json_tool', 'print(json_tool.__name__)'],
+                ['from xml.etree import ElementTree', "print(ElementTree.fromstring('<a b=\"1\"/>').get('b'))"],
+                ['from email import utils as mail_utils', "print(mail_utils.parseaddr('A <b@c.d>')[1])"],
+                ['import os.path', "print(os.path.basename('a/b.txt'))"],
+                ['from collections import abc as cabc', 'print(issubclass(list, cabc.Sequence))'],
+                ['import colorsys', 'print(colorsys.rgb_to_hsv(1, 0, 0)[2])'],
+                ['from html import parser as html_parser', 'print(html_parser.HTMLParser.__name__)'],
+                ['from wsgiref import headers as wsgi_headers', "print(wsgi_headers.Headers([('a', 'b')])['a'])"],
+            ])
         if c < 0.35:
             self.need('math')
             v = self.fresh('int')
@@ -515,6 +527,13 @@ class ProgGen:
         if c < 0.9 and self.vars['dict']:
             d = r.choice(self.vars['dict'])
             return ['for key in sorted(%s):' % d, '    print(key, %s[key])' % d]
+        if c < 0.915:
+            # a student global that happens to share its name with a builtin the sandbox replaces
+            name = r.choice(['exit', 'open', 'input', 'compile', 'eval', 'quit_flag'])
+            val = r.choice(['False', 'True', '0', "'closed'"])
+            reader = self.fresh('func')
+            self.funcs.append((reader, 0, 'none'))
+            return ['%s = %s' % (name, val), 'def %s():' % reader, '    return %s' % name, 'print(%s())' % reader]
         if c < 0.93:
             return ["if __name__ == '__main__':", "    print('main', __name__)"]
         if c < 0.97:
